@@ -71,6 +71,11 @@ Bodies09_graph_t == { [f \in 1..3 |-> IF f = 1 THEN WithOut(b[1]) ELSE b[f]] : b
 (* same name in two directories: a path resolved against the wrong base finds the wrong file *)
 Bodies09_twin == { [f \in 1..3 |-> IF f = 1 THEN WithOut(b1) ELSE << >>] :
                      b1 \in SeqsFrom(ImpA({2, 3}, {1, 2}, Positions), 1, 2) }
+(* four files: the entry <= 2 imports, the others <= 1 *)
+G09x4 == ImpA({1, 2, 3, 4}, {1}, {"top", "nested"})
+Bodies09_graph4 == { [f \in 1..4 |-> IF f = 1 THEN WithOut(b1) ELSE b[f]] :
+                       b1 \in SeqsFrom(G09x4, 1, 2), b \in [1..4 -> SeqsUpTo(G09x4, 1)] }
+LayNest4 == { [dir |-> << 0, 1, 0, 1 >>, nm |-> << "a", "b", "c", "d" >>] }
 CwdAll == {0, 1, 2}
 Cwd0 == {0}
 OrdersFirst == { << 1 >> }
